@@ -932,16 +932,6 @@ def process_commandline(out: OutputBuffer, args: List[str]) -> 'AuditConf':  # p
         list_policies(out, aconf.verbose)
         sys.exit(exitcodes.GOOD)
 
-    if aconf.client_audit is False and aconf.target_file is None:
-        if oport is not None:
-            host = argument.host
-        else:
-            host, port = Utils.parse_host_and_port(argument.host)
-
-        if not host and aconf.target_file is None:
-            out.fail("target host is not specified", write_now=True)
-            sys.exit(exitcodes.UNKNOWN_ERROR)
-
     if oport is None and aconf.client_audit:  # The default port to listen on during a client audit is 2222.
         port = 2222
 
@@ -949,6 +939,14 @@ def process_commandline(out: OutputBuffer, args: List[str]) -> 'AuditConf':  # p
         port = Utils.parse_int(oport)
         if port < 1 or port > 65535:
             out.fail("port must be greater than 0 and less than 65535: {}".format(oport), write_now=True)
+            sys.exit(exitcodes.UNKNOWN_ERROR)
+
+    if aconf.client_audit is False and aconf.target_file is None:
+        # The -p value (if any) is the default port.  A port written in the target itself (host:port or [IPv6]:port) takes precedence, just like in a targets file.
+        host, port = Utils.parse_host_and_port(argument.host, port)
+
+        if not host and aconf.target_file is None:
+            out.fail("target host is not specified", write_now=True)
             sys.exit(exitcodes.UNKNOWN_ERROR)
 
     aconf.host = host
